@@ -159,7 +159,7 @@ def get_id_pack(obj):
 
     So, check thy assumptions regarding the given object when creating `id_pack`.
     """
-    if hasattr(obj, '____id_pack__'):
+    if hasattr(type(obj), '____id_pack__'):
         # netrefs are handled first since __class__ is a descriptor
         return obj.____id_pack__
     elif inspect.ismodule(obj) or getattr(obj, '__name__', None) == 'module':
